@@ -178,7 +178,8 @@ class _Gen:
         if isinstance(inner, pydsdl.UnionType):
             L.append("    const uint64_t tag = tok_u64(t);")
             if not self.cpp:
-                L.append(f"    o->_tag_ = (uint8_t) tag;")
+                tw = next(w for w in (8, 16, 32, 64) if w >= inner.tag_field_type.bit_length)
+                L.append(f"    o->_tag_ = (uint{tw}_t) tag;")
             L.append("    switch (tag) {")
             for k, f in enumerate(fields):
                 L.append(f"    case {k}: {{")
